@@ -18,7 +18,7 @@ def identity(x):
 class MapFuture(_Future):
     def __init__(self, delegate, map_fn=None, error_fn=None):
         super(MapFuture, self).__init__()
-        self._map_fn = map_fn or identity
+        self._map_fn = identity if map_fn is None else map_fn
         self._error_fn = error_fn
         self._set_delegate(delegate)
 
